@@ -90,7 +90,20 @@ func staleKey(key []byte, ver uint64) string { return fmt.Sprintf("%x@%d", key, 
 // knownStale reports whether serving version ver of key is the listed finding
 // gc-old-version-resurfaces (never in Strict mode).
 func (in *Interp) knownStale(key []byte, ver uint64) bool {
-	return !in.Strict && !in.StrictStale && in.stale[staleKey(key, ver)]
+	if in.Strict || in.StrictStale || !in.stale[staleKey(key, ver)] {
+		return false
+	}
+	// The finding's mechanism: every newer version of the key has been compacted away and the
+	// re-inserted old one is now the newest the DB stores. If the DB still holds a newer version
+	// and serves the old one anyway, that is a different defect and is reported.
+	txn, _ := in.newReader()
+	defer txn.Discard()
+	o := badger.DefaultIteratorOptions
+	o.PrefetchValues = false
+	it := txn.NewKeyIterator(key, o)
+	defer it.Close()
+	it.Rewind()
+	return it.Valid() && it.Item().Version() == ver
 }
 
 type heldIter struct {
